@@ -1,4 +1,12 @@
-"""C19 - ONNX Runtime fusions preserve numerical results."""
+"""C19 - ONNX Runtime fusions preserve numerical results.
+
+Hosts come from vf/fusionhosts.py.  Each case = (host model M, unit, two input seeds); unit is either the family's chain of
+individual fuse_* functions (applied as the repository's tests do: optimizer.optimize first, internal `ai.onnxruntime._fusion`
+operators lowered by the following steps of the chain) or optimize_for_ort.  REGIONS names the parameter regions of the
+findings recorded so far (predicates over the stored case: family / near_miss / params); for development
+VERIF_C19_EXCLUDE=<names|ALL> keeps the generator out of them (counted in excluded_by_known_findings), VERIF_ONLY=<family>
+restricts the run to matching shard groups.
+"""
 from __future__ import annotations
 
 import os
@@ -12,12 +20,10 @@ from vf.hyp import drive, st
 from vf.runner import Collector
 
 ID = "C19"
-ALL_REGIONS = ("bias_gelu_bias_len_mismatch,rotary_position_ids_not_per_batch,rotary_cos_cache_shorter_than_sequence,"
-               "fused_matmul_div_const_rank_ge2,fused_matmul_non_float,fused_matmul_transpose_of_mixed_trans,mha_bias_not_1d,rms_scale_cast_without_target_cast,sdpa_nan_guard_fully_masked_row")
 LEVEL = "exploration"
 RULE = ("Hypothesis-parametrised host models (vf/fusionhosts.py, built with onnx.helper only) for each ORT fusion family - RMS norm, "
-        "skip RMS/Layer norm, GELU tanh/erf, bias-GELU, rotary embedding (+cos/sin cache, partial), SDPA, MHA (+bias, +Attention, "
-        "past/present, cross), FusedMatMul rule set, softmax upcast, InstanceNorm->GroupNorm - over B in {1,2}, S in {1,3,8}, "
+        "skip RMS/Layer norm, GELU tanh/erf, bias-GELU, rotary embedding (+cos/sin cache, partial), SDPA, MHA (+rotary, +bias, +Attention, "
+        "past/present, cross), GQA (kv_heads, past, causal mask), FusedMatMul rule set, softmax upcast, InstanceNorm->GroupNorm - over B in {1,2}, S in {1,3,8}, "
         "H in {1,2,4}, D in {2,4,8,16}, float32/float16, static/symbolic dims, operand orders, constant placement/shape, eps, bias "
         "none/pre/post, mask shapes, scaling variants, plus near-misses (wrong constant/axis, extra consumer, broadcasting or "
         "non-divisible sizes, wrong ranks). Each host M is transformed by (a) the family's chain of individual fuse_* functions "
@@ -29,17 +35,18 @@ RULE = ("Hypothesis-parametrised host models (vf/fusionhosts.py, built with onnx
 ASSUMPTIONS = ["onnxruntime 1.30 CPU kernels (incl. com.microsoft contrib ops) executed with graph optimisations disabled define the meaning "
                "of the fused operators", "onnx.reference is an independent second opinion on the *source* model only",
                "tolerances: float32 rtol 1e-3 / atol 1e-3*max(1,|out|max); float16 rtol 2e-2 / atol 2e-2*max(1,|out|max)",
-               "vf/fusionhosts.py emits valid ONNX (hosts that neither runtime executes are skipped and counted)"]
+               "vf/fusionhosts.py emits valid ONNX (hosts that ORT does not execute are skipped and counted)",
+               "com.microsoft.GroupNorm has no CPU kernel: InstanceNorm->GroupNorm results are executed by onnx.reference with a numpy "
+               "GroupNorm written from the contrib-op documentation (NHWC, per-channel gamma/beta, optional SiLU)"]
 FLOOR = {"quick": 800, "thorough": 8000} if not os.environ.get("VERIF_ONLY") else {"quick": 1, "thorough": 1}
 TIMEOUT = {"quick": 1200, "thorough": 4 * 3600}
-EXCLUDE: set = set(x for x in os.environ.get("VERIF_C19_EXCLUDE", "").replace("ALL", ALL_REGIONS).split(",") if x)  # development only: named regions (see REGIONS)
 
 # fusions that must fire at least this often per run, else the run is a harness error (generator rotted)
 MIN_FIRED = {"quick": 10, "thorough": 100}
+# (fuse_qkv_gqa / mha_scale never fire on these hosts and are not required; see the report)
 REQUIRED_FUSIONS = ["rms_normalization", "skip_rms_normalization", "skip_layer_normalization", "gelu", "erf_gelu", "bias_gelu",
-                    "rotary_embedding", "cos_sin_cache", "partial_rotary_embedding", "sdpa", "sdpa_via_mha", "mha", "mha_bias",
+                    "rotary_embedding", "cos_sin_cache", "partial_rotary_embedding", "sdpa", "sdpa_via_mha", "mha", "mha_bias", "gqa",
                     "attention", "fused_matmul", "softmax"]
-
 
 
 # ----------------------------------------------------------------------------- named regions of recorded findings
@@ -67,9 +74,18 @@ REGIONS = {
     and _p(c).get("dtype") == "float16",
     # SDPA drops the Where(IsNaN(softmax), 0, softmax) guard: a query row whose keys are all masked with -inf gives 0 in M, NaN after
     "sdpa_nan_guard_fully_masked_row": lambda c: c["family"] in ("sdpa", "mha") and bool(_p(c).get("mask_inf_row")),
+    # fuse_gqa tests `_causal_mask_pattern.match(...) is None`, but a failed match is a falsy MatchResult: any computed mask is accepted
+    "gqa_mask_not_checked": lambda c: c["family"] == "gqa" and c.get("near_miss") == "mask_computed",
+    # ORT's CPU GroupQueryAttention (do_rotary=1) wants head_size % 16 == 0 (and % 8 == 0 in general); the rule never looks at it
+    "gqa_head_size_constraint": lambda c: c["family"] == "gqa" and _p(c).get("Dh", 16) % 16 != 0,
+    # ORT's CPU GroupQueryAttention: "batch_size must be 1 when sequence_length > 1 and past context is given"
+    "gqa_batch_gt1_with_past": lambda c: c["family"] == "gqa" and _p(c).get("B", 1) > 1 and _p(c).get("S", 1) > 1 and bool(_p(c).get("with_past")),
     # mha_bias does not check that the q/k/v biases are 1-D
     "mha_bias_not_1d": lambda c: c["family"] == "mha" and c.get("near_miss") == "bias_rank3" and _p(c).get("bias") != "none",
 }
+
+# development only: regions the generator stays out of (empty by default, so every finding is reported until it is a recorded one)
+EXCLUDE: set = set(x for x in os.environ.get("VERIF_C19_EXCLUDE", "").replace("ALL", ",".join(REGIONS)).split(",") if x)
 
 FUSED_OPS = {("", "SimplifiedLayerNormalization"), ("com.microsoft", "SkipSimplifiedLayerNormalization"),
              ("com.microsoft", "SkipLayerNormalization"), ("com.microsoft", "FastGelu"), ("com.microsoft", "Gelu"),
@@ -79,6 +95,10 @@ FUSED_OPS = {("", "SimplifiedLayerNormalization"), ("com.microsoft", "SkipSimpli
 
 
 # ----------------------------------------------------------------------------- units (what is applied to a host)
+_PRIORITY = ["Attention", "GroupQueryAttention", "MultiHeadAttention", "SDPA", "RotaryEmbedding", "SkipSimplifiedLayerNormalization",
+             "SkipLayerNormalization", "SimplifiedLayerNormalization", "BiasGelu", "FastGelu", "Gelu", "GroupNorm", "FusedMatMul"]
+
+
 def _chains():
     import onnxscript.rewriter.ort_fusions._core as core
     from onnxscript.rewriter.ort_fusions import fused_matmul_rule_sets, instance_to_group_normalization, softmax
@@ -104,6 +124,9 @@ def _chains():
                              ("partial_rotary_embedding", core.fuse_partial_rotary_embedding)],
         "sdpa": [("sdpa", lambda m: core.fuse_sdpa(m, apply_shape_inference=True)), ("sdpa_via_mha", core.replace_sdpa_by_mha)],
         "mha": sdpa_mha,
+        "gqa": [("shape_inference", lambda m: (core.common_passes.ShapeInferencePass()(m), 0)[1]),
+                ("sdpa", lambda m: core.fuse_sdpa(m, apply_shape_inference=True)), ("gqa", core.fuse_gqa),
+                ("packed_qkv_for_gqa", core.fuse_qkv_gqa), ("sdpa_via_mha", core.replace_sdpa_by_mha)],
         "fused_matmul": [("fused_matmul", ruleset(fused_matmul_rule_sets.fused_matmul_rule_sets()))],
         "softmax": [("softmax", ruleset(softmax.rules))],
         "instance_to_group_normalization": [("instance_to_group_normalization", ruleset(instance_to_group_normalization.rules))],
@@ -167,7 +190,8 @@ _UNAVAILABLE = ("NOT_IMPLEMENTED", "Could not find an implementation", "Kernel n
 
 def _ort_error_key(msg):
     """Root-cause key of an ORT load/run failure: (operator, normalised status message)."""
-    m = re.search(r"running (\w+) node", msg) or re.search(r"operator \((\w+)\)", msg) or re.search(r"Op \((\w+)\)", msg)
+    m = (re.search(r"running (\w+) node", msg) or re.search(r"operator \((\w+)\)", msg) or re.search(r"Op \((\w+)\)", msg)
+         or re.search(r"of node \((?:node_)?([A-Za-z]+)", msg))
     opname = m.group(1) if m else "?"
     m = re.search(r"Status Message: (.*)", msg)
     text = m.group(1) if m else msg.split(":", 3)[-1]
@@ -297,7 +321,8 @@ def check(model, unit, chain, feeds_list):
         if d:
             info["verdict"] = "values"
             what = "shape" if "shape " in d else ("dtype" if "dtype " in d else ("count" if "output count" in d else ("nan" if "NaN positions" in d else "values")))
-            present = "+".join(sorted({o for (dom, o) in _ops(new) if (dom, o) in FUSED_OPS})) or "none"
+            have = {o for (dom, o) in _ops(new) if (dom, o) in FUSED_OPS}
+            present = next((o for o in _PRIORITY if o in have), "none")  # the most derived fused operator present
             verdicts.append((f"{what}:{present}", f"fusions {fired_names}: {d} | input {str(compare._feeds_repr(feeds))[:300]}"))
             return verdicts, info
     info["verdict"] = ("equal_by_reference" if by_ref else "equal") if info["changed"] else "unchanged"
@@ -307,13 +332,13 @@ def check(model, unit, chain, feeds_list):
 # ----------------------------------------------------------------------------- plan / run
 # (families, weight): 16 shard groups; the attention hosts are the most expensive per case, so they get fewer cases per shard
 GROUPS = [(["rms_normalization"], 1.0), (["skip_normalization"], 1.0), (["gelu"], 1.0), (["bias_gelu"], 1.0), (["rotary_embedding"], 0.8),
-          (["rotary_embedding"], 0.8), (["sdpa"], 0.9), (["sdpa"], 0.9), (["mha"], 0.6), (["mha"], 0.6), (["mha"], 0.6), (["fused_matmul"], 1.2),
+          (["rotary_embedding"], 0.8), (["sdpa"], 0.9), (["sdpa"], 0.9), (["mha"], 0.6), (["mha"], 0.6), (["gqa"], 0.6), (["fused_matmul"], 1.2),
           (["softmax", "instance_to_group_normalization"], 1.0), (["skip_normalization"], 1.0), (["fused_matmul"], 1.2),
           (["rms_normalization", "gelu", "bias_gelu"], 1.0)]
 
 
 def plan(tier, seed, budget):
-    n = int((420 if tier == "quick" else 6400) * budget)
+    n = int((360 if tier == "quick" else 6400) * budget)
     only = os.environ.get("VERIF_ONLY")
     reps = 1 if tier == "quick" else 4
     specs = []
@@ -340,7 +365,7 @@ def _text(model, limit=5000):
 
 def run_shard(spec):
     col = Collector()
-    fired_total, fired_ops = {}, {}
+    fired_total, fired_ops, by_region = {}, {}, {}
 
     def body(case):
         host, unit, seeds = case
@@ -377,9 +402,14 @@ def run_shard(spec):
         col.case((unit, host.key()), fired, classes,
                  sample={"family": host.family, "unit": unit, "params": {k: str(v) for k, v in host.params.items()}, "fused": info["fired"],
                          "counts": {k: c for k, c in info["counts"].items() if c}, "model": _text(host.model, 1500)})
-        for bucket, detail in verdicts:
-            col.violation(bucket, f"[{host.family} near_miss={host.near_miss} unit={unit}] {detail}", case_json(host, unit, seeds, feeds_list),
-                          size=len(host.model.graph.node))
+        if verdicts:
+            hc = {"family": host.family, "near_miss": host.near_miss, "params": host.params}
+            regs = [r for r in sorted(REGIONS) if REGIONS[r](hc)] or ["<outside every recorded region>"]
+            for bucket, detail in verdicts:
+                for r in regs:
+                    by_region[f"{r} | {bucket}"] = by_region.get(f"{r} | {bucket}", 0) + 1
+                col.violation(bucket, f"[{host.family} near_miss={host.near_miss} unit={unit} regions={regs}] {detail}",
+                              case_json(host, unit, seeds, feeds_list), size=len(host.model.graph.node))
 
     fams = [fusionhosts.FAMILIES[f] for f in spec["families"]]
     strat = st.tuples(st.sampled_from(fams).flatmap(lambda f: f()), st.sampled_from(["chain", "chain", "optimize_for_ort"]),
@@ -390,6 +420,7 @@ def run_shard(spec):
     col.extra["code_under_test"] = os.path.dirname(onnxscript.__file__)
     col.extra["fired_per_fusion"] = fired_total
     col.extra["fused_ops_introduced"] = fired_ops
+    col.extra["violating_cases_by_region_and_bucket"] = by_region
     return col.result()
 
 
@@ -401,13 +432,16 @@ def finalize(merged, tier):
     merged["extra"]["fired_per_fusion"] = dict(sorted(fired.items()))
     if os.environ.get("VERIF_ONLY"):
         return
-    low = sorted(f for f in REQUIRED_FUSIONS if fired.get(f, 0) < MIN_FIRED.get(tier, 1))
+    nominal = {"quick": 5000, "thorough": 80000}.get(tier, 5000)
+    need = max(3, int(MIN_FIRED.get(tier, 1) * min(1.0, merged["evaluations"] / nominal)))
+    merged["extra"]["fire_floor_per_fusion"] = need
+    low = sorted(f for f in REQUIRED_FUSIONS if fired.get(f, 0) < need)
     merged["extra"]["fusions_below_fire_floor"] = low
     if low:
         # vacuity guard: trip the runner's FLOOR so the run ends as a harness error (exit 2), never as "held"
         merged["extra"]["distinct_nontrivial_before_fire_floor_failure"] = len(merged["nontrivial"])
         merged["nontrivial"] = set()
-        print(f"C19: fusions that fired fewer than {MIN_FIRED.get(tier, 1)} times: {low}")
+        print(f"C19: fusions that fired fewer than {need} times: {low}")
 
 
 def replay(case):
